@@ -1,6 +1,11 @@
 """C19 — Tensor<T, D>: row-major bijection, per-dimension bounds checks, constructors (incl. element counts beyond usize),
-iter_mut, IO round trip, equality; element types i64 / i32 / u8 / String, ranks 0..6 and 8, both build profiles."""
+iter_mut, IO round trip, equality; element types i64 / i32 / u8 / String at ranks 0..6 and 8, every other element type
+rlib_io can read or write (i8 i16 u16 u32 u64 i128 u128 isize usize, char, tuples) at ranks 0..3; both build profiles."""
 import itertools
+import sys
+
+if hasattr(sys, "set_int_max_str_digits"):
+    sys.set_int_max_str_digits(0)      # String elements longer than the io buffers travel as (very long) decimal texts
 
 ID = "C19"
 CRATE = "c19"
@@ -9,7 +14,7 @@ SOURCES = ["rlib/io/src/reader.rs", "rlib/io/src/writer.rs"]
 COQ_DIR = "C19"
 COQ_DEPS = []
 PROFILES = ["debug", "release"]
-CORR_IMPORT = "From RlibV Require Import C19.Model C19.Spec C19.Corr."
+CORR_IMPORT = "From Coq Require Import Uint63.\nFrom RlibV Require Import C19.Lit C19.Model C19.Spec C19.Corr."
 CASE_TYPE = "case"
 AUDIT_IMPORT = ("From Coq Require Import List NArith ZArith Bool.\nImport ListNotations.\n"
                 "From RlibV Require Import C19.Model C19.Spec C19.Corr C19.Properties.\nLocal Open Scope N_scope.")
@@ -72,23 +77,49 @@ RULE = ("every shape of rank 1..4 with extents <= K (K=3 quick, 5 thorough; quic
         "a small number or to a large one - from_vec / from_slice with data of the wrapped length (and 0, 1, wrapped+-1), new "
         "and Tensor::read when the wrapped count is small, == partners of such a shape: all rejected; "
         "the same histories on Tensor<i32>, Tensor<u8> (values mod 256) and Tensor<String> for a spread sample of shapes. "
+        "Element types inherited from rlib_io (the Readable / Writable impl is selected by the element type): for each of "
+        "i8 i16 i32 i64 i128 isize u8 u16 u32 u64 u128 usize EVERY boundary magnitude of the type (0, +-1, 10^k, 10^k +- 1, "
+        "2*10^k, 9*10^k+9 for every k the type holds; two- and three-limb values for limbs of 4 / 9 / 19 decimal digits whose "
+        "lower limbs are 0, 1, 7, 10^(L-2), 10^(L-1)-1, 10^(L-1); 2^b and 2^b +- 1; MIN, MAX, MAX - 10^j, MAX div 10^j and "
+        "the negatives) is an element of a tensor of rank 1..3 that is written (expected text: odometer layout of the tokens "
+        "std's to_string prints; a written token counts as the element only in canonical decimal spelling), written and read "
+        "back, Debug-printed, read from the python rendering (odometer layout and one line), compared with a partner "
+        "that differs by a dropped digit / the value mod 10^19 / mod 10^9, overwritten through IndexMut and written again "
+        "(thorough adds 200 random zero-rich digit strings per type); one shape history, reads and rejections per type; "
+        "Tensor<char, D> (Readable only): grids of rank 0..3 read from rows without separators, with blanks, CRLF, tabs, "
+        "leading whitespace, one character per line, no separator at all, surplus and missing characters, transposed shapes, "
+        "plus indexing / == / IndexMut / iter_mut / Debug on the same elements; tuples (i64, u8), (u8, i64, u16) and "
+        "(char, u32) as elements: odometer layout with blank-separated components, one component per line, CRLF, a char "
+        "glued to its number, an incomplete last tuple. "
         "non-trivial = rank >= 2 with at least one indexed access, or a constructor rejection")
-TRUSTED = ["executor harness/crates/c19 (Tensor<E, D> for E = i64, i32, u8, String and D = 0..6, 8: constructors, get_index, "
+TRUSTED = ["executor harness/crates/c19 (Tensor<E, D> for E = i64, i32, u8, String and D = 0..6, 8, for E = i8, i16, u16, u32, u64, "
+           "i128, u128, isize, usize, char, (i64, u8), (u8, i64, u16), (char, u32) and D = 0..3; elements cross the line "
+           "protocol in the spelling of std's to_string / parse, never through rlib_io: constructors, get_index, "
            "Index/IndexMut, iter, iter_mut, dims, Writer over a Vec<u8>, Reader + Tensor::read, ==, !=, format!(\"{:?}\"); "
            "vh::guarded per operation; its internal consistency checks, whose failure is printed as an observation no model "
            "predicts: clone / clone_from target / Tensor::read result / the tensor itself compared observer by observer with "
            "from_vec(dims, iter); independence of copies; count/nth/last/size_hint of iter(); one Writer carrying a scalar and "
-           "the tensor twice; one Reader delivering the tensor twice and a scalar)",
+           "the tensor twice; the tensor as an item of a written Vec, between scalars in a written tuple, as both halves of a "
+           "written pair and inside a Vec of pairs; one Reader delivering a scalar, the tensor twice (starting in the middle "
+           "of a line), a scalar and a pair read as a tuple, compared element by element with std's parsing of the text)",
            "checks/c19.py (case generator, lexer of the written bytes into element / ' ' / '\\n' tokens and of the Debug string into element / '[' / ']' / ',' "
-           "tokens, Coq term printer)",
+           "tokens, scanner of input texts into elements per element type (char: next non-blank byte; tuple: its components in "
+           "turn), injective packing of a tuple into one integer, Coq term printer; integers of 32 bits and more are printed "
+           "as base-2^62 digits of primitive Uint63 literals and put together by C19/Lit.v bigz inside vm_compute)",
            "extra(): python row-major oracle for the larger-shape and boundary search on the executors of both profiles "
-           "(extents 255..65537, texts beyond the 64 KiB Reader/Writer buffers; a search, not part of the proof)"]
+           "(extents 255..65537, texts beyond the 64 KiB Reader/Writer buffers, also for u128 / i128 / u64 / usize / isize / "
+           "u32 / i16 tensors of 20..40-byte tokens and for character grids; a search, not part of the proof)"]
 ASSUMPTIONS = ["extents, indices and offsets are unbounded N in the model; usize enters in two places: the element count of "
                "the constructors is the checked fold of the code (usize::MAX = 2^64 - 1, c19_checked_volume), and an index "
                "coordinate may be as large as usize::MAX because the bound assert precedes the multiplication "
                "(c19_get_index_no_overflow)",
-               "elements are abstract tokens in the written text: decimal rendering/parsing of integers is C08/C09's subject; "
-               "a token is a maximal run of non-whitespace bytes",
+               "elements are abstract tokens in the model's text; the plugin identifies a written token with an element only "
+               "when it is the canonical decimal spelling std's to_string gives (so the Writable / Readable impls of rlib_io "
+               "for the element type are compared with std on the values listed in the rule, not proved correct: decimal "
+               "rendering/parsing as such is C08/C09's subject); a token is a maximal run of non-whitespace bytes, for char "
+               "one non-whitespace byte, for a tuple its components separated by one blank",
+               "char and tuples containing a char have no Writable impl in rlib_io: their tensors are read, indexed, compared "
+               "and Debug-printed, never written",
                "debug profile: reading past the end of input panics through the reader's debug_assert",
                "allocation failure is not modelled: `new` / `read` are only run on shapes whose element count is small or "
                "beyond usize (rejected before any allocation)",
@@ -108,13 +139,129 @@ def for_profile(c, profile):
         for d in o[1]:
             need *= d
         # a shape whose element count does not fit into usize panics in both profiles before anything is read
-        return need <= BIG and len(o[2].split()) < need
+        return need <= BIG and count_elems(o[2], c.get("ty", "i64")) < need
     return dict(c, ops=[o for o in c["ops"] if not (o[0] == "rd" and short(o))])
 
 
 # ----------------------------------------------------------------------------- line protocol
 def enc_text(s):
-    return "." if s == "" else s.replace(" ", "_").replace("\n", "/")
+    return "." if s == "" else s.replace(" ", "_").replace("\n", "/").replace("\r", "\\").replace("\t", "~")
+
+
+# ----------------------------------------------------------------------------- element types
+# Integers travel as decimal text (the executor prints them with std's to_string, never with rlib_io), chars as their
+# code point, tuples as their components joined by ','; in a case (JSON) a tuple element is a list of integers.
+INT = {"i8": (-(1 << 7), (1 << 7) - 1), "i16": (-(1 << 15), (1 << 15) - 1), "i32": (-(1 << 31), (1 << 31) - 1),
+       "i64": (-(1 << 63), (1 << 63) - 1), "i128": (-(1 << 127), (1 << 127) - 1), "isize": (-(1 << 63), (1 << 63) - 1),
+       "u8": (0, (1 << 8) - 1), "u16": (0, (1 << 16) - 1), "u32": (0, (1 << 32) - 1), "u64": (0, (1 << 64) - 1),
+       "u128": (0, (1 << 128) - 1), "usize": (0, (1 << 64) - 1)}
+COMPS = {"t2": ["i64", "u8"], "t3": ["u8", "i64", "u16"], "tc": ["char", "u32"]}
+NOT_WRITABLE = ("char", "tc")
+# characters used as elements: printable, and none of those the line protocol or the Debug lexer gives a meaning to
+ALPH = "abcdefghijklmnopqrstuvwxyzABCDEFGHIJKLMNOPQRSTUVWXYZ0123456789#*@+-=<>!:;&%$^|{}"
+BADV = -999999999999999
+TM = 1 << 32            # the components of a tuple after the first one are in [0, TM): z = (a * TM + b) * TM + c is injective
+WS = " \n\r\t"
+
+
+def comps(ty):
+    return COMPS.get(ty, [ty])
+
+
+def vstr(x):
+    return ",".join(str(y) for y in x) if isinstance(x, (list, tuple)) else str(x)
+
+
+def pv(tok):
+    """protocol spelling -> int | tuple of ints | BADV"""
+    try:
+        if "," in tok:
+            return tuple(int(y) for y in tok.split(","))
+        return int(tok)
+    except ValueError:
+        return BADV
+
+
+def zenc(v, ty="i64"):
+    """the integer that stands for an element in the Coq case (elements are abstract there)"""
+    k = len(comps(ty))
+    if k == 1:
+        return v if isinstance(v, int) else BADV
+    if not isinstance(v, (list, tuple)) or len(v) != k or any(not (0 <= y < TM) for y in v[1:]):
+        return BADV
+    z = v[0]
+    for y in v[1:]:
+        z = z * TM + y
+    return z
+
+
+def spell(x, ty):
+    """an element inside a text: std's decimal rendering of an integer, the character itself, components separated by ' '"""
+    if ty == "char":
+        return chr(x)
+    if ty in COMPS:
+        return " ".join(spell(y, t) for y, t in zip(x, COMPS[ty]))
+    return str(x)
+
+
+def fold(v, ty):
+    """an integer of the i64 histories as an element of type ty"""
+    if ty in INT:
+        lo, hi = INT[ty]
+        return lo + (v - lo) % (hi - lo + 1)
+    if ty == "char":
+        return ord(ALPH[v % len(ALPH)])
+    if ty == "t2":
+        return [v, v % 256]
+    if ty == "t3":
+        return [v % 256, abs(v) % TM, (v * 7) % 65536]
+    if ty == "tc":
+        return [ord(ALPH[v % len(ALPH)]), abs(v) % TM]
+    return v
+
+
+def canon(atom):
+    """a written integer token: only the canonical decimal spelling stands for the number"""
+    try:
+        v = int(atom)
+    except ValueError:
+        return BADV
+    return v if str(v) == atom else BADV
+
+
+def scan(text, ty):
+    """input text -> [("E", element) | ("Sp",) | ("Nl",)] the way the element type reads: a char is the next
+    non-whitespace byte, everything else the next maximal run of non-whitespace bytes, a tuple its components in turn
+    (an incomplete tuple at the end of the text is not an element)"""
+    out, i, n, cs = [], 0, len(text), comps(ty)
+    while True:
+        grp = []
+        for c in cs:
+            while i < n and text[i] in WS:
+                if not grp:
+                    out.append(("Nl",) if text[i] == "\n" else ("Sp",))
+                i += 1
+            if i >= n:
+                break
+            if c == "char":
+                grp.append(ord(text[i]))
+                i += 1
+            else:
+                j = i
+                while j < n and text[j] not in WS:
+                    j += 1
+                try:
+                    grp.append(int(text[i:j]))
+                except ValueError:
+                    grp.append(None)
+                i = j
+        if len(grp) < len(cs):
+            return out
+        out.append(("E", BADV if None in grp else (grp[0] if len(cs) == 1 else tuple(grp))))
+
+
+def count_elems(text, ty):
+    return sum(1 for t in scan(text, ty) if t[0] == "E")
 
 
 def harness_line(c):
@@ -123,22 +270,22 @@ def harness_line(c):
     t = [str(len(dims)) + ("" if ty == "i64" else ":" + ty)] + [str(d) for d in dims]
     t.append(c["ctor"])
     if c["ctor"] == "N":
-        t.append(str(c.get("newv", 0)))
+        t.append(vstr(c.get("newv", 0)))
     t.append(str(len(c["data"])))
-    t += [str(x) for x in c["data"]]
+    t += [vstr(x) for x in c["data"]]
     for o in c["ops"]:
         k = o[0]
         t.append(k)
         if k in ("gi", "g"):
             t += [str(i) for i in o[1]]
         elif k == "s":
-            t += [str(i) for i in o[1]] + [str(o[2])]
+            t += [str(i) for i in o[1]] + [vstr(o[2])]
         elif k == "rd":
             t += [str(i) for i in o[1]] + [enc_text(o[2])]
         elif k == "eq":
-            t += [str(i) for i in o[1]] + [str(len(o[2]))] + [str(x) for x in o[2]]
+            t += [str(i) for i in o[1]] + [str(len(o[2]))] + [vstr(x) for x in o[2]]
         elif k == "im":
-            t += [str(len(o[1]))] + [str(x) for x in o[1]]
+            t += [str(len(o[1]))] + [vstr(x) for x in o[1]]
     return " ".join(t)
 
 
@@ -154,7 +301,7 @@ def parse_obs(c, obs):
     def take_list():
         nonlocal at
         n = int(t[at])
-        v = [int(x) for x in t[at + 1:at + 1 + n]]
+        v = [pv(x) for x in t[at + 1:at + 1 + n]]
         at += 1 + n
         return v
 
@@ -171,8 +318,11 @@ def parse_obs(c, obs):
         elif t[at] == "P":
             res.append(None)
             at += 1
-        elif k in ("gi", "g"):
+        elif k == "gi":
             res.append(int(t[at]))
+            at += 1
+        elif k == "g":
+            res.append(pv(t[at]))
             at += 1
         elif k == "s":
             res.append(True)
@@ -199,19 +349,29 @@ def parse_obs(c, obs):
 
 # ----------------------------------------------------------------------------- Coq printing
 def zt(v):
-    return "(%d)%%Z" % v
+    """an integer as a Coq term of type Z; from 32 bits on as sign and base-2^62 digits of primitive integers, put
+    together by Lit.bigz (elaborating a 128-bit decimal literal takes milliseconds, a tensor element occurs a dozen times)"""
+    if -(1 << 31) < v < (1 << 31):
+        return "(%d)%%Z" % v
+    a, limbs = abs(v), []
+    while a:
+        limbs.append(a & ((1 << 62) - 1))
+        a >>= 62
+    return "(bigz %s [%s])" % ("true" if v < 0 else "false", ";".join("%d%%uint63" % x for x in reversed(limbs)))
 
 
 def nl(xs):
     return "[" + ";".join(str(x) for x in xs) + "]%N"
 
 
-def zl(xs):
-    return "[" + ";".join(zt(x) for x in xs) + "]"
+def zl(xs, ty="i64"):
+    return "[" + ";".join(zt(zenc(x, ty)) for x in xs) + "]"
 
 
-def lex(text):
-    """encoded written text -> Coq token list"""
+def lex(text, ty="i64"):
+    """encoded WRITTEN text -> Coq token list.  An element token is the canonical decimal spelling of an integer (what
+    std's to_string prints: anything else - a sign on zero, padding, a missing or extra digit - is no element of the
+    tensor); the token of a tuple is its components separated by exactly one blank"""
     if text == ".":
         return "[]"
     out, cur = [], ""
@@ -225,28 +385,59 @@ def lex(text):
             cur += ch
     if cur:
         out.append(cur)
-    toks = []
-    for x in out:
+    k = len(comps(ty))
+    toks, i = [], 0
+    while i < len(out):
+        x = out[i]
         if x in ("Sp", "Nl"):
             toks.append(x)
+            i += 1
+        elif k == 1:
+            toks.append("E %s" % zt(canon(x)))
+            i += 1
         else:
-            try:
-                toks.append("E %s" % zt(int(x)))
-            except ValueError:
-                toks.append("E (-999999999999999)%Z")
+            grp = out[i:i + 2 * k - 1]
+            if len(grp) == 2 * k - 1 and all(g == "Sp" for g in grp[1::2]) and all(g not in ("Sp", "Nl") for g in grp[0::2]):
+                vals = [canon(g) for g in grp[0::2]]
+                toks.append("E %s" % zt(BADV if BADV in vals else zenc(tuple(vals), ty)))
+                i += 2 * k - 1
+            else:
+                toks.append("E %s" % zt(BADV))
+                i += 1
     return "[" + ";".join(toks) + "]"
 
 
-def lex_debug(text):
-    """Debug string (spaces removed) -> Coq dtok list"""
-    toks, cur = [], ""
+def lex_in(text, ty="i64"):
+    """INPUT text of a read -> Coq token list (`scan`: the elements the way the element type reads them)"""
+    return "[" + ";".join("E %s" % zt(zenc(t[1], ty)) if t[0] == "E" else t[0] for t in scan(text, ty)) + "]"
+
+
+def datom(s, kind):
+    """one component of an element in the Debug text: 'c' for a char, the canonical decimal spelling otherwise"""
+    if kind == "char":
+        return ord(s[1]) if len(s) == 3 and s[0] == s[2] == "'" else BADV
+    return canon(s)
+
+
+def lex_debug(text, ty="i64"):
+    """Debug string (spaces removed) -> Coq dtok list; a tuple element is "(a,b,..)" """
+    cs = comps(ty)
+    toks, cur, depth = [], "", 0
     for ch in text + "\0":
-        if ch in "[],\0":
+        if ch == "(":
+            depth += 1
+        if ch == ")":
+            depth -= 1
+        if ch in "[],\0" and (depth <= 0 or ch == "\0"):
             if cur:
-                try:
-                    toks.append("DE %s" % zt(int(cur)))
-                except ValueError:
-                    toks.append("DE (-999999999999999)%Z")
+                if len(cs) == 1:
+                    v = datom(cur, cs[0])
+                elif cur[0] == "(" and cur[-1] == ")" and len(cur[1:-1].split(",")) == len(cs):
+                    vals = [datom(a, c) for a, c in zip(cur[1:-1].split(","), cs)]
+                    v = BADV if BADV in vals else zenc(tuple(vals), ty)
+                else:
+                    v = BADV
+                toks.append("DE %s" % zt(v))
                 cur = ""
             if ch != "\0":
                 toks.append({"[": "DOpen", "]": "DClose", ",": "DComma"}[ch])
@@ -257,7 +448,8 @@ def lex_debug(text):
 
 def coq_term(c, obs, profile):
     ok, res = parse_obs(c, obs)
-    ctor = {"V": "FromVec", "S": "FromSlice"}.get(c["ctor"]) or "(New %s)" % zt(c.get("newv", 0))
+    ty = c.get("ty", "i64")
+    ctor = {"V": "FromVec", "S": "FromSlice"}.get(c["ctor"]) or "(New %s)" % zt(zenc(c.get("newv", 0), ty))
     ops = []
     if ok:
         for o, r in zip(c["ops"], res):
@@ -265,32 +457,33 @@ def coq_term(c, obs, profile):
             if k == "gi":
                 ops.append("OGetIndex %s %s" % (nl(o[1]), "None" if r is None else "(Some %d%%N)" % r))
             elif k == "g":
-                ops.append("OGet %s %s" % (nl(o[1]), "None" if r is None else "(Some %s)" % zt(r)))
+                ops.append("OGet %s %s" % (nl(o[1]), "None" if r is None else "(Some %s)" % zt(zenc(r, ty))))
             elif k == "s":
-                ops.append("OSet %s %s %s" % (nl(o[1]), zt(o[2]), "false" if r is None else "true"))
+                ops.append("OSet %s %s %s" % (nl(o[1]), zt(zenc(o[2], ty)), "false" if r is None else "true"))
             elif k == "it":
-                ops.append("OIter %s" % zl(r))
+                ops.append("OIter %s" % zl(r, ty))
             elif k == "dm":
                 ops.append("ODims %s" % nl(r))
             elif k == "im":
-                ops.append("OIterMut %s %d%%N" % (zl(o[1]), r))
+                ops.append("OIterMut %s %d%%N" % (zl(o[1], ty), r))
             elif k == "w":
-                ops.append("OWrite %s" % ("None" if r is None else "(Some %s)" % lex(r)))
+                ops.append("OWrite %s" % ("None" if r is None else "(Some %s)" % lex(r, ty)))
             elif k == "db":
-                ops.append("ODebug %s" % ("None" if r is None else "(Some %s)" % lex_debug(r)))
+                ops.append("ODebug %s" % ("None" if r is None else "(Some %s)" % lex_debug(r, ty)))
             elif k == "rt":
                 ops.append("ORoundtrip %s" % ("None" if r is None else
-                                              "(Some (%s, %s))" % ("true" if r[0] == "1" else "false", zl(r[1]))))
+                                              "(Some (%s, %s))" % ("true" if r[0] == "1" else "false", zl(r[1], ty))))
             elif k == "rd":
-                ops.append("ORead %s %s %s" % (nl(o[1]), lex(enc_text(o[2])),
-                                               "None" if r is None else "(Some (%s, %s))" % (nl(r[0]), zl(r[1]))))
+                ops.append("ORead %s %s %s" % (nl(o[1]), lex_in(o[2], ty),
+                                               "None" if r is None else "(Some (%s, %s))" % (nl(r[0]), zl(r[1], ty))))
             elif k == "eq":
                 # "X": == was not symmetric; printed as a value no specification accepts
                 rr = "None" if r is None else ("(Some true)" if r == "1" else "(Some false)" if r == "0" else "None")
                 if r == "X":
                     rr = "None" if constructible(o[1], len(o[2])) else "(Some true)"
-                ops.append("OEq %s %s %s" % (nl(o[1]), zl(o[2]), rr))
-    return "(Case %s %s %s %s [%s])" % (nl(c["dims"]), ctor, zl(c["data"]), "true" if ok else "false", ";\n ".join(ops))
+                ops.append("OEq %s %s %s" % (nl(o[1]), zl(o[2], ty), rr))
+    return "(Case %s %s %s %s [%s])" % (nl(c["dims"]), ctor, zl(c["data"], ty), "true" if ok else "false", ";\n ".join(ops))
+
 
 
 # ----------------------------------------------------------------------------- evidence helpers
@@ -381,12 +574,12 @@ def oor_multi(rng, dims):
     return res
 
 
-def render(dims, data):
-    """independent python rendering (only used to produce input text for `rd` ops)"""
+def render(dims, data, ty="i64"):
+    """independent python rendering (input text for `rd` ops; expected text in the implementation-only search)"""
     D = len(dims)
     out = []
     for k, x in enumerate(data):
-        out.append(str(x))
+        out.append(spell(x, ty))
         if k + 1 < len(data):
             c, p = 0, 1
             for d in reversed(dims):
@@ -615,14 +808,13 @@ def overflow_cases(rng, tier):
 def remap_case(c, ty):
     """the same history on Tensor<ty, D>: values folded into the type's range (u8: mod 256), in the data, the written
     values, the comparison partners and the integer tokens of the texts"""
-    if ty == "u8":
-        f = lambda v: v % 256
-    else:
-        f = lambda v: v
+    f = lambda v: fold(v, ty)
     import re
     ops = []
     for o in c["ops"]:
         k = o[0]
+        if k in ("w", "rt") and ty in NOT_WRITABLE:
+            continue
         if k == "s":
             ops.append([k, o[1], f(o[2])])
         elif k == "eq":
@@ -630,13 +822,201 @@ def remap_case(c, ty):
         elif k == "im":
             ops.append([k, [f(x) for x in o[1]]])
         elif k == "rd":
-            ops.append([k, o[1], re.sub(r"-?\d+", lambda m: str(f(int(m.group(0)))), o[2])])
+            ops.append([k, o[1], re.sub(r"-?\d+", lambda m: spell(f(int(m.group(0))), ty), o[2])])
         else:
             ops.append(o)
     d = dict(c, ty=ty, data=[f(x) for x in c["data"]], ops=ops)
     if "newv" in c:
         d["newv"] = f(c["newv"])
     return d
+
+
+# ----------------------------------------------------------------------------- element types of rlib_io: values
+def magnitudes(ty):
+    """boundary magnitudes of an integer type: 0, +-1, 10^k and 10^k +- 1 for every k the type can hold, values whose
+    decimal limbs of 4 / 9 / 19 digits start with zeros (an implementation that prints or parses limb by limb must
+    pad them), powers of two around the 32 / 64 bit halves, MIN, MAX and their neighbours"""
+    lo, hi = INT[ty]
+    vals = {0, 1, 2, 9, lo, lo + 1, hi, hi - 1, hi // 2, hi // 10, hi // 10 + 1}
+    k = 0
+    while 10 ** k <= hi + 1:
+        vals |= {10 ** k, 10 ** k - 1, 10 ** k + 1, 2 * 10 ** k, 9 * 10 ** k + 9}
+        k += 1
+    for L in (4, 9, 19):
+        B = 10 ** L
+        for h in (1, 7, 10 ** (L - 1), B - 1):
+            for l in (0, 1, 7, 10 ** (L - 2), 10 ** (L - 1) - 1, 10 ** (L - 1)):
+                vals.add(h * B + l)
+                for m in (0, 1, 10 ** (L - 1) - 1, B - 1):
+                    vals.add((h * B + m) * B + l)
+                    vals.add(((h * B + m) * B + 0) * B + l)
+    for b in (8, 16, 31, 32, 33, 63, 64, 65, 127):
+        vals |= {(1 << b) - 1, 1 << b, (1 << b) + 1}
+    vals |= {hi - 10 ** j for j in range(k)} | {hi // 10 ** j for j in range(k)}
+    if lo < 0:
+        vals |= {-v for v in vals} | {lo // 10 ** j for j in range(k)}
+    return sorted(v for v in vals if lo <= v <= hi)
+
+
+VALUE_SHAPES = {24: [[24], [4, 6], [2, 3, 4], [12, 2], [2, 2, 6]], 12: [[12], [3, 4], [2, 3, 2], [2, 6]],
+                6: [[6], [2, 3], [3, 1, 2]], 4: [[4], [2, 2]], 3: [[3], [1, 3]], 2: [[2], [2, 1]], 1: [[1], [1, 1]]}
+
+
+def value_cases(rng, ty, tier):
+    """every boundary magnitude of the type as an element of some tensor: write (expected: the odometer layout of the
+    standard decimal spellings), write -> read round trip, Debug, Tensor::read of the python rendering (odometer layout
+    and one line), == against a partner that differs in one element by a dropped / padded digit"""
+    pool = magnitudes(ty)
+    rng.shuffle(pool)
+    if tier != "quick":
+        lo, hi = INT[ty]
+        more = set()
+        while len(more) < 200 and hi > 300:
+            digits = rng.range(1, len(str(hi)))
+            v = 0
+            for _ in range(digits):
+                v = v * 10 + rng.choice([0, 0, 0, 9, 1, rng.below(10)])
+            v = v if lo == 0 or rng.chance(1, 2) else -v
+            if lo <= v <= hi:
+                more.add(v)
+        pool += sorted(more)
+    cases, q = [], 0
+    while pool:
+        size = next(z for z in (24, 12, 6, 4, 3, 2, 1) if z <= len(pool))
+        data, pool = pool[:size], pool[size:]
+        dims = rng.choice(VALUE_SHAPES[size])
+        ops = [["it"], ["w"], ["rt"], ["db"], ["rd", dims, render(dims, data)], ["rd", dims, " ".join(str(x) for x in data)]]
+        k = rng.below(size)
+        other = list(data)
+        s = str(abs(data[k]))
+        cand = [int(s[:1] + s[2:]) if len(s) > 1 else data[k] + 1,            # a digit dropped behind the first one
+                int(s[:-1] or "0"), data[k] % 10 ** 19, data[k] % 10 ** 9, data[k] + 1 if data[k] < INT[ty][1] else data[k] - 1]
+        other[k] = next(v for v in cand if v != data[k] and INT[ty][0] <= v <= INT[ty][1])
+        ops += [["eq", dims, list(data)], ["eq", dims, other], ["g", unflat(dims, k)], ["s", unflat(dims, k), other[k]], ["w"], ["rt"]]
+        c = {"dims": dims, "ty": ty, "ctor": "VS"[q % 2], "data": data, "ops": ops}
+        if q % 5 == 4:
+            # the same elements written one by one into a tensor made by `new`
+            fill = data[0]
+            c = {"dims": dims, "ty": ty, "ctor": "N", "newv": fill, "data": [],
+                 "ops": [["w"], ["rt"]] + [["s", unflat(dims, j), x] for j, x in enumerate(data)] + [["it"], ["w"], ["rt"], ["db"]]}
+        if ty == "i64":
+            c.pop("ty")
+        cases.append(c)
+        q += 1
+    return cases
+
+
+def unflat(dims, k):
+    idx = []
+    for d in reversed(dims):
+        idx.append(k % d)
+        k //= d
+    return list(reversed(idx))
+
+
+# ----------------------------------------------------------------------------- element types of rlib_io: char
+def char_texts(rng, dims, codes):
+    """the same characters in the layouts a character grid comes in"""
+    odo = render(dims, codes, "char")                       # blanks between the characters of a row
+    grid = odo.replace(" ", "")                             # a row is one unbroken word
+    texts = [grid, grid + "\n", odo, grid.replace("\n", "\r\n") + "\r\n", odo.replace("\n", "\r\n"),
+             "".join(chr(x) for x in codes),                # no separator at all
+             " \n\t" + odo.replace(" ", " \t ") + "  \n", # leading whitespace, tabs
+             "\n".join(chr(x) for x in codes),              # one character per line
+             grid + "\n" + grid]                            # more characters than elements
+    return texts
+
+
+def char_cases(rng, dims):
+    n = prod(dims)
+    codes = [ord(ALPH[(rng.below(len(ALPH)) + 7 * k) % len(ALPH)]) for k in range(n)]
+    valid = all_idx(dims)
+    ops = [["dm"], ["it"], ["db"]]
+    for idx in valid:
+        ops += [["g", idx], ["gi", idx]]
+    texts = char_texts(rng, dims, codes)
+    for t in texts:
+        ops.append(["rd", dims, t])
+    perms = sorted({p for p in itertools.permutations(dims)})
+    rng.shuffle(perms)
+    for p in perms[:2]:
+        ops.append(["rd", list(p), texts[0]])
+        ops.append(["rd", list(p), texts[2]])
+    ops.append(["rd", dims, texts[0][:-1]])                 # one character short (debug profile: the reader panics)
+    ops.append(["rd", dims, ""])
+    other = list(codes)
+    k = rng.below(n)
+    other[k] = ord("Q") if codes[k] != ord("Q") else ord("q")
+    ops += [["eq", dims, list(codes)], ["eq", dims, other], ["s", unflat(dims, k), other[k]], ["eq", dims, other], ["it"],
+            ["im", [ord(ALPH[(5 + j) % len(ALPH)]) for j in range(n)]], ["it"], ["db"]]
+    return [{"dims": dims, "ty": "char", "ctor": rng.choice(["V", "S"]), "data": codes, "ops": ops},
+            {"dims": dims, "ty": "char", "ctor": "N", "newv": ord("#"), "data": [],
+             "ops": [["it"], ["db"], ["rd", dims, texts[0]], ["s", unflat(dims, k), ord("x")], ["it"], ["rd", dims, texts[3]]]}]
+
+
+# ----------------------------------------------------------------------------- element types of rlib_io: tuples
+def tuple_cases(rng, ty, dims):
+    n = prod(dims)
+    base = [rng.range(-10 ** 12, 10 ** 12) if rng.chance(1, 2) else rng.range(-300, 300) for _ in range(n)]
+    data = [fold(v, ty) for v in base]
+    if ty == "t2":
+        data[0] = [INT["i64"][0], 255]
+        data[-1] = [INT["i64"][1], 0]
+    if ty == "t3":
+        data[0] = [255, TM - 1, 65535]
+    if ty == "tc":
+        data[-1] = [ord("Z"), TM - 1]
+    odo = render(dims, data, ty)
+    flat = [spell(y, t) for x in data for y, t in zip(x, COMPS[ty])]
+    texts = [odo, " ".join(flat), "\n".join(flat), "\r\n".join(flat) + "\r\n", "  " + odo.replace(" ", "\t") + " \n",
+             odo + " " + " ".join(flat[:len(COMPS[ty])])]
+    if ty == "tc":
+        texts.append("".join(spell(x[0], "char") + str(x[1]) + " " for x in data))       # "x5 y6 ": the char sticks to the number
+    ops = [["dm"], ["it"], ["db"]] + ([] if ty in NOT_WRITABLE else [["w"], ["rt"]])
+    for idx in all_idx(dims):
+        ops += [["g", idx], ["gi", idx]]
+    for t in texts:
+        ops.append(["rd", dims, t])
+    ops.append(["rd", dims, " ".join(flat[:-1])])           # the last tuple lacks a component (debug profile: panic)
+    ops.append(["rd", list(reversed(dims)), odo])
+    other = [list(x) for x in data]
+    k = rng.below(n)
+    j = rng.below(len(COMPS[ty]))
+    other[k][j] = other[k][j] - 1 if other[k][j] > 40 else other[k][j] + 1
+    ops += [["eq", dims, data], ["eq", dims, other], ["s", unflat(dims, k), other[k]], ["eq", dims, other], ["it"]]
+    ops += [] if ty in NOT_WRITABLE else [["w"], ["rt"]]
+    ops += [["im", list(reversed(data))], ["it"], ["db"]]
+    return [{"dims": dims, "ty": ty, "ctor": rng.choice(["V", "S"]), "data": data, "ops": ops}]
+
+
+NEW_INT_TYPES = ("i8", "i16", "u16", "u32", "u64", "i128", "u128", "isize", "usize")
+
+
+def io_type_cases(rng, tier, pool):
+    """the element types rlib_io can read / write beyond i64, i32, u8, String (ranks 0..3)"""
+    cases = []
+    for ty in ("i64", "i32", "u8") + NEW_INT_TYPES:
+        cases += value_cases(rng, ty, tier)
+    small = [s for s in pool if len(s) <= 3]
+    rng.shuffle(small)
+    per = 1 if tier == "quick" else 8
+    for q, ty in enumerate(NEW_INT_TYPES + ("char", "t2", "t3", "tc")):
+        cases.append({"dims": [], "ty": ty, "ctor": "V", "data": [fold(9, ty)],
+                      "ops": [["dm"], ["gi", []], ["g", []], ["it"], ["db"], ["s", [], fold(10, ty)], ["eq", [], [fold(10, ty)]],
+                              ["rd", [], spell(fold(5, ty), ty)], ["rd", [], "\n " + spell(fold(6, ty), ty) + " " + spell(fold(7, ty), ty)],
+                              ["im", [fold(41, ty)]], ["it"]] + ([] if ty in NOT_WRITABLE else [["w"], ["rt"]])})
+        for dims in [small[(q * per + j) % len(small)] for j in range(per)]:
+            for c in shape_cases(rng, dims) + read_cases(rng, dims) + reject_cases(rng, dims)[:4]:
+                cases.append(remap_case(c, ty))
+    grids = [[1], [5], [2, 2], [3, 4], [4, 1], [1, 6], [2, 3, 2], [2, 1, 3]] if tier == "quick" else \
+        [s for s in shapes(3, 4) if prod(s) <= 36]
+    for dims in grids:
+        cases += char_cases(rng, dims)
+    tshapes = [[3], [2, 2], [2, 1, 2]] if tier == "quick" else [[1], [4], [2, 3], [3, 2], [1, 5], [2, 2, 2], [3, 1, 2]]
+    for ty in ("t2", "t3", "tc"):
+        for dims in tshapes:
+            cases += tuple_cases(rng, ty, dims)
+    return cases
 
 
 def shapes(maxrank, ext):
@@ -680,7 +1060,7 @@ def generate(rng, tier):
         cases.append({"dims": [], "ctor": "V", "data": [x],
                       "ops": [["dm"], ["gi", []], ["g", []], ["it"], ["w"], ["rt"], ["db"], ["s", [], x + 1], ["g", []], ["w"], ["rt"], ["db"],
                               ["eq", [], [x + 1]], ["eq", [], [x]], ["eq", [], []], ["rd", [], "5"], ["rd", [], ""],
-                              ["rd", [], "/_-12_4"], ["im", [41]], ["it"], ["im", []], ["im", [42, 43]], ["g", []]]})
+                              ["rd", [], "\n -12 4"], ["im", [41]], ["it"], ["im", []], ["im", [42, 43]], ["g", []]]})
     cases.append({"dims": [], "ctor": "N", "newv": 11, "data": [], "ops": [["dm"], ["it"], ["g", []], ["gi", []], ["w"], ["rt"], ["db"]]})
     cases.append({"dims": [], "ctor": "S", "data": [8], "ops": [["dm"], ["it"], ["g", []], ["gi", []], ["w"], ["rt"], ["db"]]})
     cases.append({"dims": [], "ctor": "S", "data": [], "ops": [["it"]]})
@@ -728,6 +1108,8 @@ def generate(rng, tier):
         for dims in pool[q * per_type:(q + 1) * per_type]:
             for c in shape_cases(rng, dims) + read_cases(rng, dims) + reject_cases(rng, dims)[:4]:
                 cases.append(remap_case(c, ty))
+    # every other element type rlib_io can read / write, with the boundary magnitudes of the integer types
+    cases += io_type_cases(rng.fork("io-types"), tier, base + extra)
     return cases
 
 
@@ -752,17 +1134,19 @@ def shrink(c):
 
 
 # ----------------------------------------------------------------------------- implementation-only search
-def render_debug(dims, data):
+def render_debug(dims, data, ty="i64"):
     """independent python rendering of the Debug text (spaces removed)"""
     if not dims:
-        return str(data[0])
+        return "'%s'" % chr(data[0]) if ty == "char" else str(data[0])
     step = prod(dims[1:])
-    return "[" + ",".join(render_debug(dims[1:], data[k * step:(k + 1) * step]) for k in range(dims[0])) + "]"
+    return "[" + ",".join(render_debug(dims[1:], data[k * step:(k + 1) * step], ty) for k in range(dims[0])) + "]"
 
 
 def py_expect(c):
-    """python oracle (row-major arithmetic) for a from_vec history of dm / gi / g / it / w / rt / db ops on a valid tensor"""
+    """python oracle (row-major arithmetic) for a from_vec history of dm / gi / g / it / w / rt / db / rd ops on a valid
+    tensor of integers or chars (rd: only texts holding enough elements)"""
     dims, l = c["dims"], list(c["data"])
+    ty = c.get("ty", "i64")
     exp = []
     for o in c["ops"]:
         k = o[0]
@@ -778,11 +1162,13 @@ def py_expect(c):
         elif k == "dm":
             exp.append(list(dims))
         elif k == "w":
-            exp.append(enc_text(render(dims, l)))
+            exp.append(enc_text(render(dims, l, ty)))
         elif k == "db":
-            exp.append(render_debug(dims, l))
+            exp.append(render_debug(dims, l, ty))
         elif k == "rt":
             exp.append(("1", l))
+        elif k == "rd":
+            exp.append((list(o[1]), [t[1] for t in scan(o[2], ty) if t[0] == "E"][:prod(o[1])]))
         else:
             raise ValueError(k)
     return exp
@@ -824,6 +1210,38 @@ def boundary_cases(rng, tier):
         if n <= 100000:
             ops.append(["db"])
         cases.append({"dims": dims, "ty": ty, "ctor": "V", "data": data, "ops": ops})
+    # the wide element types: tokens of 19..40 bytes in texts longer than the 64 KiB buffers, so that tokens straddle the
+    # refill boundary of the Reader and the flush boundary of the Writer at many different offsets inside the token
+    wide = [("u128", [1800]), ("i128", [40, 50]), ("u64", [2, 1800]), ("usize", [3400]), ("isize", [3, 40, 30]), ("u32", [7000]),
+            ("i16", [2, 6000])]
+    if tier != "quick":
+        wide += [("u128", [3, 50, 40]), ("i128", [5000]), ("i128", [2, 2500]), ("u64", [100, 70]), ("i8", [20000]), ("u16", [300, 50])]
+    for ty, dims in wide:
+        n = prod(dims)
+        pool = [v for v in magnitudes(ty) if abs(v) >= min(10 ** 18, INT[ty][1] // 100)]
+        data = [pool[(k * 7 + k // len(pool)) % len(pool)] for k in range(n)]
+        text = render(dims, data, ty)
+        ops = [["it"], ["w"], ["rt"], ["rd", dims, text], ["rd", dims, "  " + " ".join(str(x) for x in data) + "\n"], ["db"]]
+        for _ in range(12):
+            idx = [rng.below(d) for d in dims]
+            ops += [["gi", idx], ["g", idx]]
+        cases.append({"dims": dims, "ty": ty, "ctor": "V", "data": data, "ops": ops})
+    # String elements longer than a buffer (Writable for String writes them in chunks, Readable collects them over refills)
+    longs = [int("7" * 65536), int("1" + "0" * 70000), 5, int("9" * 65537), int("123456789" * 15000), 0]
+    cases.append({"dims": [3, 2], "ty": "str", "ctor": "V", "data": longs,
+                  "ops": [["it"], ["w"], ["rt"], ["g", [1, 1]], ["rd", [2, 3], render([2, 3], longs)], ["g", [2, 0]]]})
+    # character grids longer than the Reader's buffer: unbroken rows, blank-separated, CRLF
+    for dims in ([300, 300], [3, 200, 150]) if tier == "quick" else ([300, 300], [3, 200, 150], [70000], [2, 40000], [1000, 100]):
+        n = prod(dims)
+        data = [ord(ALPH[(k * 11 + k // 300) % len(ALPH)]) for k in range(n)]
+        odo = render(dims, data, "char")
+        grid = odo.replace(" ", "")
+        ops = [["it"], ["rd", dims, grid], ["rd", dims, odo], ["rd", dims, grid.replace("\n", "\r\n") + "\r\n"],
+               ["rd", dims, "".join(chr(x) for x in data)], ["rd", list(reversed(dims)), grid + "\n"]]
+        for _ in range(12):
+            idx = [rng.below(d) for d in dims]
+            ops += [["gi", idx], ["g", idx]]
+        cases.append({"dims": dims, "ty": "char", "ctor": "V", "data": data, "ops": ops})
     return cases
 
 
@@ -897,12 +1315,15 @@ MANIFEST = {
             "Writable (and Debug) odometer terminates and emits the elements in storage order with ' ' / D-pos-1 newlines "
             "(brackets) as separators; read(dims, write(t)) = t; == holds iff shape and data agree; model_check = spec_check "
             "for every case. The model is tied to the code on every run, in the debug and the release profile: the executor "
-            "instantiates Tensor<E, D> for E = i64, i32, u8, String and D = 0..6, 8 from /repo and runs constructor / "
+            "instantiates Tensor<E, D> for E = i64, i32, u8, String and D = 0..6, 8 (and for every other element type rlib_io "
+            "can read or write - the remaining fixed-width integers, i128 / u128, isize / usize, char, tuples - at D = 0..3, "
+            "with every decimal boundary magnitude of each integer type as an element of a written, re-read and compared "
+            "tensor, and character grids in the usual input layouts) from /repo and runs constructor / "
             "get_index / Index / IndexMut / iter / iter_mut / write / read / == / != / Debug histories over all small shapes "
             "(every valid index, every index out of range in exactly one dimension, sampled indices out of range in several), "
             "shapes whose element count overflows usize, and tensors obtained by clone / clone_from / read; Coq proves model = "
             "implementation and implementation |= row-major specification on every case; a python-oracle search adds extents "
-            "up to 65537 and texts beyond the 64 KiB io buffers.",
+            "up to 65537 and texts beyond the 64 KiB io buffers (also with 128-bit elements and character grids).",
     "level_note": "Trusted: Coq kernel + vm_compute; the Rust executor (incl. its differential consistency checks), the Python "
                   "case printer and lexer; usize = 64 bit; element rendering/parsing abstracted to tokens (C08/C09); theorems "
                   "are about the model, the correspondence is exhaustive only for the listed small shapes.",
